@@ -88,6 +88,10 @@ LEAVES = {
     "kappa_rate": (_pos(1, 0.5, 2.0), [1.0]),
     "theta_loc": (_real(1, 0.5, 2.0), [1.0]),
     "theta_scale": (_pos(1, 0.5, 1.5), [1.0]),
+    # a plain TimeTreeModel that is observed ONLY through node_heights (by a coalescent): nobody ever calls
+    # its branch_lengths() unless a history does so explicitly
+    "heights3": (_heights, [0.6, 1.4, 2.6]),
+    "theta2": (_pos(1, 1.0, 10.0), [3.0]),
 }
 
 LEAF_SHAPES = {"lin_w": (3, 2)}
@@ -100,8 +104,14 @@ def _tensor(lid, v):
     return v
 
 
+GRADS = {}  # leaf id -> True for the leaves built with requires_grad (set by `build`)
+
+
 def P(lid, values):
-    return {"id": lid, "type": "Parameter", "tensor": _tensor(lid, values[lid]), "dtype": "torch.float64"}
+    d = {"id": lid, "type": "Parameter", "tensor": _tensor(lid, values[lid]), "dtype": "torch.float64"}
+    if GRADS.get(lid):
+        d["requires_grad"] = True
+    return d
 
 
 def spec(values: dict, with_mg94_like: bool = True):
@@ -124,6 +134,7 @@ def spec(values: dict, with_mg94_like: bool = True):
         {"id": "ttree", "type": "ReparameterizedTimeTreeModel", "newick": NEWICK, "taxa": "taxa",
          "ratios": "ratios", "root_height": "root_height"},
         {"id": "ttree2", "type": "TimeTreeModel", "newick": NEWICK, "taxa": "taxa", "internal_heights": "heights2"},
+        {"id": "ttree3", "type": "TimeTreeModel", "newick": NEWICK, "taxa": "taxa", "internal_heights": "heights3"},
         # ---------------- parametric transforms
         {"id": "branch_rates", "type": "TransformedParameter",
          "transform": "torchtree.evolution.rate_transform.RescaledRateTransform",
@@ -170,6 +181,7 @@ def spec(values: dict, with_mg94_like: bool = True):
         {"id": "cgd", "type": "CompoundGammaDirichletPrior", "tree_model": "utree", "alpha": "cgd_alpha",
          "c": "cgd_c", "shape": "cgd_shape", "rate": "cgd_rate"},
         {"id": "coal", "type": "ConstantCoalescentModel", "theta": "theta", "tree_model": "ttree"},
+        {"id": "coal2", "type": "ConstantCoalescentModel", "theta": "theta2", "tree_model": "ttree3"},
         # ---------------- distributions
         {"id": "normal", "type": "Distribution", "distribution": "torch.distributions.Normal",
          "x": "cat_ab", "parameters": {"loc": "loc", "scale": "scale"}},
@@ -180,9 +192,25 @@ def spec(values: dict, with_mg94_like: bool = True):
         {"id": "prior_tail", "type": "Distribution", "distribution": "torch.distributions.Exponential",
          "x": "tail_rates", "parameters": {"rate": 1.0}},
         {"id": "joint", "type": "JointDistributionModel",
-         "distributions": ["like_u", "like_t", "like_t2", "cgd", "coal", "normal", "prior_kappa", "prior_theta",
+         "distributions": ["like_u", "like_t", "like_t2", "cgd", "coal", "coal2", "normal", "prior_kappa", "prior_theta",
                            "prior_tail", "ttree", "kappa"] + (["like_c"] if with_mg94_like else [])},
     ]
+    return out
+
+
+SMALL_LEAVES = ["log_kappa", "hky_freqs", "allrates", "gtr_freqs", "cat_a", "cat_b", "loc", "log_scale", "pinv2",
+                "cc_x", "cc_w", "kappa_rate"]
+
+
+def spec_small(values: dict):
+    """a tree-free sub-graph (cheap enough for exhaustive short histories): every parameter kind incl. a
+    parametric transform, two substitution models, a site model, three distributions, a joint"""
+    keep = {"kappa", "gtr_rates", "tail_rates", "scale", "cat_ab", "cc", "site_i", "hky", "gtr", "normal",
+            "prior_kappa", "prior_tail"}
+    out = [P(k, values) for k in SMALL_LEAVES]
+    out += [d for d in spec(values) if d["id"] in keep]
+    out.append({"id": "joint", "type": "JointDistributionModel",
+                "distributions": ["normal", "prior_kappa", "prior_tail", "kappa"]})
     return out
 
 
@@ -190,13 +218,16 @@ def initial_values():
     return {k: list(v[1]) for k, v in LEAVES.items()}
 
 
-def build(values, **kw):
-    """process the description with torchtree's own loader; returns the id dictionary"""
+def build(values, small=False, grads=None, **kw):
+    """process the description with torchtree's own loader; returns the id dictionary.
+    `grads`: leaf ids to build with requires_grad=True"""
     from torchtree.core.utils import process_object
 
     import_all()
+    GRADS.clear()
+    GRADS.update({k: True for k in (grads or [])})
     dic = {}
-    for d in spec(values, **kw):
+    for d in (spec_small(values) if small else spec(values, **kw)):
         process_object(d, dic)
     return dic
 
